@@ -430,6 +430,7 @@ impl Code {
             stream: &stream,
             diagnostics: &mut diag,
             standard: self.standard,
+            depth: 0,
         };
         (parse_fun(&mut ctx), diag)
     }
@@ -505,6 +506,7 @@ impl Code {
             stream: &stream,
             diagnostics: &mut diag,
             standard: self.standard,
+            depth: 0,
         };
         let res = parse_fun(&mut ctx);
         (res, diag)
